@@ -8,7 +8,7 @@
    in any order of the enabled internal rules. *)
 From Coq Require Import List ZArith Bool.
 Import ListNotations.
-From Goat Require Import Model.Client Model.Server Proofs.ServerProofs Proofs.ServerInv Proofs.ServerLive Proofs.ServerTrace Proofs.ServerRoute Proofs.ServerDispatch Proofs.ServerProbe Proofs.ServerWriter Proofs.ServerResetW Proofs.ServerServing.
+From Goat Require Import Model.Client Model.Server Proofs.ServerProofs Proofs.ServerInv Proofs.ServerLive Proofs.ServerTrace Proofs.ServerRoute Proofs.ServerDispatch Proofs.ServerProbe Proofs.ServerWriter Proofs.ServerResetW Proofs.ServerServing Proofs.ServerStall.
 Open Scope Z_scope.
 
 (* no reachable state is crashed: the places where the code dereferences the
@@ -168,4 +168,48 @@ Example C12_never_stalls_ex :
             /\ length (filter (fun e => match e with SvReply _ _ => true | _ => false end) (log s)) = 1%nat
             /\ ureads (log s) = jobs (log s) /\ length (jobs (log s)) = 2%nat
             /\ length (rst_due (log s)) = 1%nat /\ length (filter is_rst (written (log s))) = 1%nat.
+Proof. eexists. vm_compute. repeat split. Qed.
+
+(* ---------- composed: no envelope sequence stalls the server; nothing about the connection left to the reader ----------
+   For EVERY run in which only the peer and the handlers act ([peer_only]: envelopes of any shape, handler operations,
+   a transport that blocks / unblocks writes, any interleaving of the internal rules) the Q theorems above hold with
+   their "connection not ended" hypotheses ([hctx_done s = false], [rd_exited s = false]) discharged by
+   C12_stays_serving:
+   - never crashed, never stops serving (always);
+   - wherever the run is at rest ([quiescent]; C10_terminates: reached once the environment stops acting):
+     * if some worker is idle every unary request read has been handed to a worker and a handler was started for
+       exactly those that decode, in order, once each;
+     * if the transport does not block writes the resets on the wire are exactly those due, and EVERYTHING the writer
+       took - unary replies, stream headers, messages, trailers, resets - is on the wire in the order taken (the probe
+       clause for stream probes: what a stream handler's SendMsg / return handed over has been written);
+     * if moreover every handler has returned the connection is as idle as a fresh one, nothing is unread, and the reply
+       of every unary handler has been written. *)
+Theorem C12_peer_cannot_stall : forall ls s, forallb peer_only ls = true -> lrun init ls = Some s ->
+  crashed s = false
+  /\ (hctx_done s = false /\ cctx_done s = false /\ rd_exited s = false /\ wr s <> WrDead
+      /\ (forall w, nth_error (wk s) w <> Some WkDead))
+  /\ (quiescent s = true ->
+      ((exists w, nth_error (wk s) w = Some WkIdle) ->
+         ureads (log s) = jobs (log s) /\ ureqs s = filter unary_ok (ureads (log s)))
+      /\ (wblock s = false ->
+          filter is_rst (written (log s)) = map rst_reply (rst_due (log s))
+          /\ taken_of (log s) = written (log s)
+          /\ ((forall h k, nth_error (hs s) h = Some k -> h_returned k = true) ->
+              rd s = RdRead /\ inbox s = [] /\ wr s = WrSel
+              /\ (forall w p, nth_error (wk s) w = Some p -> p = WkIdle)
+              /\ (forall h k, nth_error (hs s) h = Some k -> h_pc k = HDead)
+              /\ registry_size s = 0%nat
+              /\ ureads (log s) = jobs (log s) /\ ureqs s = filter unary_ok (ureads (log s))
+              /\ (forall h f, In (SvReply h f) (log s) -> In (SvWrite f) (log s))))).
+Proof. intros ls s. apply (srv_peer_cannot_stall nworkers). unfold nworkers; auto with arith. Qed.
+Print Assumptions C12_peer_cannot_stall.
+
+(* its hypotheses are met by the run of C12_never_stalls_ex (garbage, a stream opened, fed and closed, an undecodable
+   and an answered unary request): peer-only, at rest, every handler returned, writes not blocked; 5 envelopes taken
+   and written, among them the stream's message and trailer *)
+Example C12_peer_cannot_stall_ex :
+  exists s, lrun init (labels_of ex_acts) = Some s /\ forallb peer_only (labels_of ex_acts) = true
+            /\ quiescent s = true /\ wblock s = false /\ forallb h_returned (hs s) = true
+            /\ length (taken_of (log s)) = 5%nat /\ taken_of (log s) = written (log s)
+            /\ length (filter (fun e => match e with SvTrailer _ _ => true | _ => false end) (log s)) = 1%nat.
 Proof. eexists. vm_compute. repeat split. Qed.
